@@ -6,6 +6,11 @@
 #include <vector>
 namespace Pistache::Async::VerifInst
 {
+    // continuations with a name (a lambda's type is spelled by its source position, which would tie the units to line numbers here)
+    struct AddOne { int operator()(int v) const { return v + 1; } };             // returns a value, takes its argument by value
+    struct Sink { void operator()(int) const { } };                              // returns nothing
+    struct Chain { Promise<int> operator()(int v) const { return Promise<int>::resolved(v); } };   // returns a further promise
+    struct VoidSink { void operator()() const { } };
     inline void instantiate()
     {
         Promise<int> p1([](Resolver&, Rejection&) {});
@@ -18,10 +23,10 @@ namespace Pistache::Async::VerifInst
         whenAll(vi.begin(), vi.end());
         std::vector<Promise<void>> vv;
         whenAll(vv.begin(), vv.end());
-        p1.then([](int v) { return v + 1; }, Async::Throw);
-        p1.then([](int) {}, Async::IgnoreException);
-        p1.then([](int v) { return Promise<int>::resolved(v); }, Async::Throw);
-        pv.then([]() {}, Async::Throw);
+        p1.then(AddOne(), Async::Throw);
+        p1.then(Sink(), Async::IgnoreException);
+        p1.then(Chain(), Async::Throw);
+        pv.then(VoidSink(), Async::Throw);
         Resolver* r = nullptr; Rejection* j = nullptr;
         (*r)(1); (*r)(); (*j)(Error("x"));
     }
